@@ -195,13 +195,9 @@ Definition spec_ok (c : case) : bool :=
       (len =? size) && (if n <? 2 ^ 16 then (dn =? n) && (doff =? len) && same else true)
   end.
 
-(* recorded findings: class 1 = a row holding Float(+0.0) / Float(-0.0) went through RowSerde *)
-Definition known_class (c : case) : Z :=
-  match c with
-  | Ser _ rows _ _ _ _ _ => if existsb row_zero_float rows then 1 else 0
-  | Spill _ rows _ => if existsb row_zero_float rows then 1 else 0
-  | _ => 0
-  end.
+(* no open finding: F-C33-1 (Float(+-0.0) read back as Int 0) was fixed by /repo commit a939896 and
+   its witness is re-run on every check like any other case *)
+Definition known_class (c : case) : Z := 0.
 
 Fixpoint failures_from (i : Z) (cs : list case) : list (Z * bool * bool * Z) :=
   match cs with
